@@ -1449,12 +1449,16 @@ impl<'a> Runner<'a> {
         let mut touched_res: BTreeSet<ResKey> = BTreeSet::new();
         let mut bu_executed: BTreeSet<Tid> = BTreeSet::new();
         let mut in_bu = false;
-        for e in slice.iter() {
+        let last_bu_end = slice.iter().rposition(|e| matches!(e, Ev::BuEnd)).unwrap_or(slice.len());
+        // What a top-down phase after the last build modified or re-executed: the bottom-up rule does not speak about it.
+        let mut after_bu_res: BTreeSet<ResKey> = BTreeSet::new();
+        let mut after_bu_exec: BTreeSet<Tid> = BTreeSet::new();
+        for (i, e) in slice.iter().enumerate() {
           match e {
             Ev::BuStart => { in_bu = true; }
             Ev::BuEnd | Ev::BuDropped => { in_bu = false; }
-            Ev::ExecStart { t, .. } if in_bu => { bu_executed.insert(*t); }
-            Ev::ResSet { res, new, .. } => { if let Some(i) = prog.res_index(*res) { world[i] = *new; if in_bu { touched_res.insert(*res); } } }
+            Ev::ExecStart { t, .. } => { if in_bu { bu_executed.insert(*t); } if i > last_bu_end { after_bu_exec.insert(*t); } }
+            Ev::ResSet { res, new, .. } => { if let Some(ix) = prog.res_index(*res) { world[ix] = *new; if in_bu { touched_res.insert(*res); } if i > last_bu_end { after_bu_res.insert(*res); } } }
             _ => {}
           }
         }
@@ -1467,8 +1471,8 @@ impl<'a> Runner<'a> {
           let handed_out = validated_ok.contains(&t) && !carry.validated.contains(&t);
           for d in rec.deps.iter() {
             let (incons, relevant) = match (d.target, d.rchk, d.ochk) {
-              (Target::Res(r), Some(k), _) if k.is_zst() => { let val = prog.res_index(r).and_then(|i| world[i]); (k.zst_inconsistent(Cell { val, ver: 0 }), handed_out || (bu_complete && touched_res.contains(&r))) }
-              (Target::Task(u), _, Some(k)) if k.is_zst() => { let out = self.ledger[u].as_ref().and_then(|e| e.out); (out.map(|o| k.zst_inconsistent(&o)).unwrap_or(false), handed_out || (bu_complete && bu_executed.contains(&u))) }
+              (Target::Res(r), Some(k), _) if k.is_zst() => { let val = prog.res_index(r).and_then(|i| world[i]); (k.zst_inconsistent(Cell { val, ver: 0 }), handed_out || (bu_complete && touched_res.contains(&r) && !after_bu_res.contains(&r))) }
+              (Target::Task(u), _, Some(k)) if k.is_zst() => { let out = self.ledger[u].as_ref().and_then(|e| e.out); (out.map(|o| k.zst_inconsistent(&o)).unwrap_or(false), handed_out || (bu_complete && bu_executed.contains(&u) && !after_bu_exec.contains(&u))) }
               _ => (false, false),
             };
             if incons && relevant {
